@@ -58,6 +58,10 @@ enum Task {
     Block(u32),
     /// spawns the children (spawn kind, task) through a captured scheduler clone, then returns
     Nest(Vec<(u8, Task)>),
+    /// returns this value; the task's closure owns a guard whose `Drop` spawns a fire-and-forget
+    /// no-op task (urgent if the flag is set) through a captured scheduler clone - wherever the
+    /// closure is dropped: on the worker after it ran, or inside the pool when it is abandoned
+    Guarded(u32, bool),
 }
 
 #[derive(Debug, Clone, Serialize, Deserialize)]
@@ -144,6 +148,7 @@ fn leaf() -> BoxedStrategy<Task> {
         24 => (0u32..1000).prop_map(Task::Value),
         8 => (0u32..1000).prop_map(Task::Panic),
         1 => (0u32..1000).prop_map(Task::Block),
+        4 => (0u32..1000, any::<bool>()).prop_map(|(v, u)| Task::Guarded(v, u)),
     ]
     .boxed()
 }
@@ -308,6 +313,7 @@ enum RKind {
     Panic(u32),
     Block(u32),
     Nest(Vec<(u8, RTask)>),
+    Guarded(u32, bool),
 }
 
 #[derive(Clone)]
@@ -367,6 +373,10 @@ fn resolve_task(t: &Task, specs: &mut Vec<Spec>, post: bool, has_handle: bool, n
             specs[id].value = *v;
             *blockers = true;
             RKind::Block(*v)
+        }
+        Task::Guarded(v, urgent) => {
+            specs[id].value = *v;
+            RKind::Guarded(*v, *urgent)
         }
         Task::Nest(children) => RKind::Nest(children.iter().map(|(k, c)| (*k % 4, resolve_task(c, specs, post, *k % 4 < 2, true, blockers))).collect()),
     };
@@ -631,6 +641,10 @@ struct Shared {
     pauses: Vec<Pause>,
     sync_counts: [AtomicU32; 3],
     pauses_taken: AtomicU32,
+    /// `Guarded` tasks: guards dropped / dropped although their task never ran / no-op tasks run
+    guard_drops: AtomicU32,
+    guard_drops_unrun: AtomicU32,
+    guard_spawn_runs: AtomicU32,
 }
 
 impl Shared {
@@ -804,8 +818,41 @@ impl Drop for DoneGuard {
 
 type Body = Box<dyn FnOnce() -> Out + Send + 'static>;
 
+/// Owned by the closure of a `Guarded` task: spawns a no-op task when dropped.
+struct SpawnOnDrop {
+    sched: Scheduler,
+    urgent: bool,
+    sh: Arc<Shared>,
+    id: usize,
+}
+
+impl Drop for SpawnOnDrop {
+    fn drop(&mut self) {
+        self.sh.guard_drops.fetch_add(1, SeqCst);
+        if !self.sh.recs[self.id].done.load(SeqCst) {
+            self.sh.guard_drops_unrun.fetch_add(1, SeqCst);
+        }
+        let ran = Arc::clone(&self.sh);
+        let r = catch_unwind(AssertUnwindSafe(|| {
+            let noop = move || {
+                ran.guard_spawn_runs.fetch_add(1, SeqCst);
+            };
+            if self.urgent { self.sched.spawn_urgent_and_forget(noop) } else { self.sched.spawn_and_forget(noop) }
+        }));
+        if let Err(p) = r {
+            self.sh.fail("C14/spawn-from-drop/panicked", format!("a spawn made from the Drop of state captured by task {} panicked: {}", self.id, payload_message(&*p)));
+        }
+    }
+}
+
 fn make_body(task: RTask, sh: Arc<Shared>, sched: Option<Scheduler>, proc: i64, parent_forget: bool) -> Body {
+    let guard = match (&task.kind, &sched) {
+        (RKind::Guarded(_, urgent), Some(s)) => Some(SpawnOnDrop { sched: s.clone(), urgent: *urgent, sh: Arc::clone(&sh), id: task.id }),
+        _ => None,
+    };
     Box::new(move || {
+        // captured state with a destructor: dropped when this closure is dropped, run or not
+        let _guard = &guard;
         let id = task.id;
         let rec = &sh.recs[id];
         rec.seen.store(sh.current_proc(), SeqCst);
@@ -821,6 +868,7 @@ fn make_body(task: RTask, sh: Arc<Shared>, sched: Option<Scheduler>, proc: i64, 
                 sh.gate.wait();
                 Out { id, val: v, children: Vec::new() }
             }
+            RKind::Guarded(v, _) => Out { id, val: v, children: Vec::new() },
             RKind::Nest(children) => {
                 let sched = sched.expect("nest task carries a scheduler");
                 let mut handles = Vec::new();
@@ -840,7 +888,7 @@ fn make_body(task: RTask, sh: Arc<Shared>, sched: Option<Scheduler>, proc: i64, 
 }
 
 fn has_nest(t: &RTask) -> bool {
-    matches!(t.kind, RKind::Nest(_))
+    matches!(t.kind, RKind::Nest(_) | RKind::Guarded(..))
 }
 
 fn do_spawn(sh: &Arc<Shared>, sched: &Scheduler, kind: u8, task: &RTask, proc: i64) -> Option<JoinHandle<Out>> {
@@ -1100,6 +1148,9 @@ fn run_case(case: &Case) -> WReply {
         pauses: case.pauses.clone(),
         sync_counts: [AtomicU32::new(0), AtomicU32::new(0), AtomicU32::new(0)],
         pauses_taken: AtomicU32::new(0),
+        guard_drops: AtomicU32::new(0),
+        guard_drops_unrun: AtomicU32::new(0),
+        guard_spawn_runs: AtomicU32::new(0),
     });
     *CURRENT.lock().unwrap() = Some(Arc::clone(&sh));
     set_me(Some(Me { sh: Arc::clone(&sh), idx: n, role: 2 }));
@@ -1215,6 +1266,12 @@ fn judge(case: &Case, res: &Resolved, sh: &Arc<Shared>, base_all: usize, real: b
         classes.push(if hold.st.lock().unwrap().forced > 0 { "wake:spawn-completed-between-empty-check-and-listener" } else { "wake:workers-held-none-forced" }.into());
     }
     classes.push(if case.keep_scheduler { "scheduler:kept-while-awaiting" } else { "scheduler:dropped-before-awaiting" }.into());
+    if sh.guard_drops.load(SeqCst) > 0 {
+        classes.push("has:task-state-whose-drop-spawns".into());
+    }
+    if sh.guard_drops_unrun.load(SeqCst) > 0 {
+        classes.push("drop-spawn:from-an-abandoned-task".into());
+    }
     if !case.pauses.is_empty() {
         let taken = sh.pauses_taken.load(SeqCst);
         classes.push(if taken > 0 { "delay-injected-at-sync-op" } else { "delay-plan-not-reached" }.into());
